@@ -11,7 +11,7 @@ from vlib.common import *
 from vlib import build, sched, treegen, scenarios, envrun, packcheck
 from vlib.treegen import E, content_pattern
 
-SCN_QUICK = ["+q5", "a1", "a2+q5", "a2+q5,+q5", "A2+Q5,b1", "01,a1+q3", "a2+q5,a2+q5", "+r20,+s20,a1", "a1,+r20,+s20,+r20,b2", "F:a1+q5,a1", "D:a2,a2", "02+q3,+q3,a1"]
+SCN_QUICK = ["+q5", "a1", "a2+q5", "a2+q5,+q5", "A2+Q5,b1", "01,a1+q3", "a2+q5,a2+q5", "+r20,+s20,a1", "+R20,+S20,+R20", "A1+R20,+S20,+R20,a1", "a1,+r20,+s20,+r20,b2", "F:a1+q5,a1", "D:a2,a2", "02+q3,+q3,a1"]
 SCN_THOROUGH = SCN_QUICK + ["a3+q9,b1,+q9", "+r20,+s20,+t20,+r20,a2", "a1,b1,a1,b1", "A1+r20,+s20,A1+r20", "a2+q5,0a2+q5".replace("0a", "a"), "F:+q5,+q5,F:+q5"]
 
 
@@ -21,10 +21,9 @@ def sched_plan(tier):
     if tier == "quick":
         for s in SCN_QUICK:
             P.append((2, 3, s, "complete"))
-        for s in SCN_QUICK[2:9]:
+        for s in ("a2+q5,+q5", "+R20,+S20,+R20", "a2+q5,a2+q5"):
             P.append((2, 10, s, "complete"))
-        for s in ("a2+q5,+q5", "+r20,+s20,a1"):
-            P.append((3, 3, s, 1))
+        P.append((3, 3, "+R20,+S20,+R20", 1))
         P.append((1, 3, "a2+q5,a2+q5", "complete"))
     else:
         for s in SCN_THOROUGH:
@@ -92,6 +91,18 @@ def run_env_job(a):
         shutil.rmtree(d, ignore_errors=True)
 
 
+def run_tsan_job(a):
+    exe_, wd, j, q = a
+    d = tempfile.mkdtemp(prefix="t", dir=wd)
+    try:
+        img = os.path.join(d, "o.sqfs")
+        r = run_tool([exe_, "-q", "-b", "4096", "-c", "gzip", "-j", str(j), "-Q", str(q), "-F", os.path.join(wd, "pack.txt"), "-D", os.path.join(wd, "in"), img], timeout=300)
+        bad = r.crashed or b"ThreadSanitizer" in r.err
+        return bad, (r.crash_fingerprint() if bad else ""), "-j %d -Q %d in %s" % (j, q, os.path.basename(wd)), r.err.decode("latin1")[-3000:]
+    finally:
+        shutil.rmtree(d, ignore_errors=True)
+
+
 def main():
     cr = CheckRun("C02", "model_checking", default_budget=(420, 3000))
     with build.Scratch("C02") as sd:
@@ -138,7 +149,7 @@ def main():
                 if left < 5:
                     res.append((b, None))
                     break
-                j, r = sched.explore(exe, hargs, bound=b, procs=procs, deadline=max(5, left))
+                j, r = sched.explore(exe, hargs, bound=b, procs=procs, deadline=max(5, left), unlock_points=True)
                 res.append((b, j if j is not None else r))
                 if j is None or j["violation"] is not None or j["capped"]:
                     break
@@ -243,6 +254,25 @@ def main():
                     key[0], key[1], key[2], label, sh[:16], (refs[key] or "?")[:16]),
                     files={"case.json": json.dumps(dict(kind="config", key=key, label=label))})
         cr.sample(dict(kind="configurations", grid=["-j%d -Q%d" % g for g in grid][:6] + ["..."], inputs=[i[0] for i in inputs], runs=n_cfg))
+
+        # ---- 2b. free-running ThreadSanitizer pass on the real tool (complement for unsynchronised accesses)
+        n_tsan = 0
+        try:
+            tt = build.build_tools(build.variant("tsan"), os.path.join(sd, "tsan"), tools=["gensquashfs"])
+            tj = []
+            for iname, spec in inputs[:2]:
+                wdx = os.path.join(sd, "cfg_" + iname)
+                for j_, q_ in ((4, 1), (4, 1000), (2, 3), (8, 10)):
+                    for rep in range(2 if cr.quick else 10):
+                        tj.append((tt["gensquashfs"], wdx, j_, q_))
+            for r_ in pmap(run_tsan_job, tj, procs=4):
+                n_tsan += 1
+                if r_[0]:
+                    cr.violation("C02|tsan|" + r_[1], "gensquashfs built with -fsanitize=thread, %s\n%s" % (r_[2], r_[3]),
+                                 files={"case.json": json.dumps(dict(kind="tsan", what=r_[2]))})
+        except build.BuildError as e:
+            cr.note("TSan build failed: %s" % str(e)[:200])
+        cr.coverage["tsan_cli_runs"] = n_tsan
 
         # ---- 3. environment: full product of clock x TZ x locale x umask x cwd
         n_env = 0
